@@ -192,6 +192,101 @@ def check(chk: Check) -> None:
         chk.require(ok, R2, cons, where,
                     '%s accepts %s argument(s); the template passes %d%s' % (ent.descr(), '%d..%s' % (lo, hi if hi is not None else '*'), n, '+' if variadic else ''))
 
+    list_literal_builder(chk, R2, tab)
+
+    # --------------------------------------------------------------------- R3
+    charge_rules(chk, R3, R3)
+    _r4_r5(chk)
+    _r6(chk)
+    _r7(chk)
+    _r8(chk)
+    _r9(chk)
+
+
+def node_transparency(chk: Check, R7: str, kinds=('call', 'name')) -> None:
+    """A call node returns what the callee returned, a name node what the scoped names hold."""
+    F = chk.facts
+    n = 0
+    for cls in om.op_classes(F):
+        if cls == om.ROOT or not om.own_eval(F, cls):
+            continue
+        q = cls + '.eval'
+        selft, stt = ('param', om.self_param(F, q)), ('param', om.state_param(F, q))
+        names = ('attr', stt, 'names')
+        problems = []
+        kind = None
+        n_paths = 0
+        for p in om.eval_paths(F, cls):
+            if not p.normal:
+                continue
+            dyn = [e for e in p.events if e.kind == 'call' and isinstance(freeze(e.func), tuple) and freeze(e.func)[:1] == ('sub',)
+                   and freeze(e.func)[1] == names]
+            loads = [e for e in p.events if e.kind == 'load_sub' and freeze(e.obj) == names]
+            stores = [e for e in p.events if e.kind in ('store_sub', 'aug_sub') and freeze(e.obj) == names]
+            ret = p.outcome[1]
+            if dyn:
+                kind = 'call'
+                n_paths += 1
+                if A.strip_ids(ret) != A.strip_ids(freeze(dyn[-1].result)):
+                    problems.append('returns %s, not the result of `%s` itself' % (show(ret), dyn[-1].text()))
+            elif loads and not stores and not child_events(F, p, selft, stt):
+                kind = kind or 'name'
+                n_paths += 1
+                want = ('sub', names, freeze(loads[-1].index))
+                if ret != want:
+                    problems.append('returns %s, not the value `%s` found' % (show(ret), loads[-1].text()))
+        if kind is None or kind not in kinds:
+            continue
+        n += 1
+        chk.require(not problems, R7, '%s (%s node)' % (q, kind), F.func(q).where, '; '.join(sorted(set(problems))[:3]) or
+                    '%d returning path(s) hand the %s on unchanged' % (n_paths, 'callee\'s result' if kind == 'call' else 'looked-up value'))
+    if n == 0:
+        raise AnalysisError('anchor vanished: no node class calls or looks up through the scoped names')
+
+
+def _r7(chk: Check) -> None:
+    """Values pass through the evaluator unchanged: what a callee returned and what a name is bound to are the results of
+    the call node and of the name node - not a converted, copied or normalised version of them."""
+    F = chk.facts
+    R10 = chk.rule('C07.R10', 'positional parameters, one binding per call (= C10.R5): every call of a lambda binds its arguments in a '
+                              'dict made for that call and pushed around the body - a frame shared between calls is rebound by a '
+                              'recursive or nested call of the same lambda', floor=1)
+    R11 = chk.rule('C07.R11', 'key-to-string dict cast and decimal-to-integer index cast (= C14.R1): every keyed accessor and the dict '
+                              'literal use str(key) on dicts and int(key) for Decimal positions, computed from the key of this call '
+                              '(not looked up in a memo keyed by ==)', floor=4)
+    chk.decided += ['lambda parameters are bound per call (R10)', 'the key casts of the reference semantics, on every keyed path (R11)']
+    from .c10 import _r5 as lambda_frames
+    from .c14 import key_cast_agreement
+    lambda_frames(chk, R10)
+    key_cast_agreement(chk, R11)
+    R7 = chk.rule('C07.R7', 'value transparency: a call node returns exactly what the callee returned, a name node exactly the '
+                            'value found in the scoped names (no conversion, copy or normalisation on the way out)', floor=2)
+    chk.decided += ['results of calls and name lookups are handed on unchanged (R7)']
+    node_transparency(chk, R7)
+    # ... and out of the interpreter: eval hands the host the value of the program, not a re-formatted one
+    q = 'smartquery.sq_parser.SqParser.eval'
+    fi = F.func(q)
+    problems = []
+    n_ret = 0
+    for p in SymExec(F, fi).run():
+        if not p.normal:
+            continue
+        evs = [e for e in p.events if e.kind == 'call' and e.resolved is None and isinstance(freeze(e.func), tuple)
+               and freeze(e.func)[:1] == ('attr',) and freeze(e.func)[2] == om.EVAL]
+        ret = p.outcome[1]
+        if not evs:
+            if ret != ('const', None):
+                problems.append('without evaluating a tree eval returns %s' % show(ret))
+            continue
+        n_ret += 1
+        if A.strip_ids(ret) != A.strip_ids(freeze(evs[-1].result)):
+            problems.append('eval returns %s, not the value `%s` produced' % (show(ret), evs[-1].text()))
+    chk.require(not problems and n_ret, R7, q, fi.where, '; '.join(sorted(set(problems))[:3]) or
+                '%d returning path(s): the value of the program is returned as it is' % n_ret)
+
+
+def list_literal_builder(chk: Check, R2: str, tab) -> None:
+    F = chk.facts
     # the list literal `[e1, ..., en]` is lowered to a call of a table function with the elements as arguments: whatever that
     # function is, it must return exactly those arguments as a list, for every n - a builder that looks at what its single
     # argument is (list(x) converting a container) turns [[1, 2]] into [1, 2]
@@ -223,90 +318,6 @@ def check(chk: Check) -> None:
                         problems_b.append('with %d element(s) the literal evaluates to %s, not to the list of its elements' % (k, show(p.outcome[1])))
         chk.require(not problems_b, R2, 'list literal builder FUNCTIONS[%r]' % name, where_b,
                     '; '.join(sorted(set(problems_b))[:3]) or 'returns its arguments as a list for every number of elements (0..3 checked, no branch on them)')
-
-    # --------------------------------------------------------------------- R3
-    charge_rules(chk, R3, R3)
-    _r4_r5(chk)
-    _r6(chk)
-    _r7(chk)
-    _r8(chk)
-    _r9(chk)
-
-
-def _r7(chk: Check) -> None:
-    """Values pass through the evaluator unchanged: what a callee returned and what a name is bound to are the results of
-    the call node and of the name node - not a converted, copied or normalised version of them."""
-    F = chk.facts
-    R10 = chk.rule('C07.R10', 'positional parameters, one binding per call (= C10.R5): every call of a lambda binds its arguments in a '
-                              'dict made for that call and pushed around the body - a frame shared between calls is rebound by a '
-                              'recursive or nested call of the same lambda', floor=1)
-    R11 = chk.rule('C07.R11', 'key-to-string dict cast and decimal-to-integer index cast (= C14.R1): every keyed accessor and the dict '
-                              'literal use str(key) on dicts and int(key) for Decimal positions, computed from the key of this call '
-                              '(not looked up in a memo keyed by ==)', floor=4)
-    chk.decided += ['lambda parameters are bound per call (R10)', 'the key casts of the reference semantics, on every keyed path (R11)']
-    from .c10 import _r5 as lambda_frames
-    from .c14 import key_cast_agreement
-    lambda_frames(chk, R10)
-    key_cast_agreement(chk, R11)
-    R7 = chk.rule('C07.R7', 'value transparency: a call node returns exactly what the callee returned, a name node exactly the '
-                            'value found in the scoped names (no conversion, copy or normalisation on the way out)', floor=2)
-    chk.decided += ['results of calls and name lookups are handed on unchanged (R7)']
-    n = 0
-    for cls in om.op_classes(F):
-        if cls == om.ROOT or not om.own_eval(F, cls):
-            continue
-        q = cls + '.eval'
-        selft, stt = ('param', om.self_param(F, q)), ('param', om.state_param(F, q))
-        names = ('attr', stt, 'names')
-        problems = []
-        kind = None
-        n_paths = 0
-        for p in om.eval_paths(F, cls):
-            if not p.normal:
-                continue
-            dyn = [e for e in p.events if e.kind == 'call' and isinstance(freeze(e.func), tuple) and freeze(e.func)[:1] == ('sub',)
-                   and freeze(e.func)[1] == names]
-            loads = [e for e in p.events if e.kind == 'load_sub' and freeze(e.obj) == names]
-            stores = [e for e in p.events if e.kind in ('store_sub', 'aug_sub') and freeze(e.obj) == names]
-            ret = p.outcome[1]
-            if dyn:
-                kind = 'call'
-                n_paths += 1
-                if A.strip_ids(ret) != A.strip_ids(freeze(dyn[-1].result)):
-                    problems.append('returns %s, not the result of `%s` itself' % (show(ret), dyn[-1].text()))
-            elif loads and not stores and not child_events(F, p, selft, stt):
-                kind = kind or 'name'
-                n_paths += 1
-                want = ('sub', names, freeze(loads[-1].index))
-                if ret != want:
-                    problems.append('returns %s, not the value `%s` found' % (show(ret), loads[-1].text()))
-        if kind is None:
-            continue
-        n += 1
-        chk.require(not problems, R7, '%s (%s node)' % (q, kind), F.func(q).where, '; '.join(sorted(set(problems))[:3]) or
-                    '%d returning path(s) hand the %s on unchanged' % (n_paths, 'callee\'s result' if kind == 'call' else 'looked-up value'))
-    if n == 0:
-        raise AnalysisError('anchor vanished: no node class calls or looks up through the scoped names')
-    # ... and out of the interpreter: eval hands the host the value of the program, not a re-formatted one
-    q = 'smartquery.sq_parser.SqParser.eval'
-    fi = F.func(q)
-    problems = []
-    n_ret = 0
-    for p in SymExec(F, fi).run():
-        if not p.normal:
-            continue
-        evs = [e for e in p.events if e.kind == 'call' and e.resolved is None and isinstance(freeze(e.func), tuple)
-               and freeze(e.func)[:1] == ('attr',) and freeze(e.func)[2] == om.EVAL]
-        ret = p.outcome[1]
-        if not evs:
-            if ret != ('const', None):
-                problems.append('without evaluating a tree eval returns %s' % show(ret))
-            continue
-        n_ret += 1
-        if A.strip_ids(ret) != A.strip_ids(freeze(evs[-1].result)):
-            problems.append('eval returns %s, not the value `%s` produced' % (show(ret), evs[-1].text()))
-    chk.require(not problems and n_ret, R7, q, fi.where, '; '.join(sorted(set(problems))[:3]) or
-                '%d returning path(s): the value of the program is returned as it is' % n_ret)
 
 
 def _program_supplied(f) -> bool:
